@@ -192,6 +192,13 @@ func c07Raw(data []byte) *h.Failure {
 	}
 	walk(node)
 	m := gm.FromGeom(g)
+	// with a negative precision the decoded ordinate is k x 10^|p|: it too must stay below 2^52, or float64
+	// cannot carry it back to the same integer (found by the native fuzzer: k = 3.77e15 at precision -2)
+	for _, v := range m.AllOrdinates() {
+		if math.Abs(float64(v)) >= 1<<52 {
+			small = false
+		}
+	}
 	if !small || !finiteModel(m) || containsEmptyPointInMulti(m) {
 		return nil
 	}
